@@ -514,3 +514,16 @@ commanding_stem_harness!(c15_k_commanding_stem_t20, 20);
 commanding_stem_harness!(c15_k_commanding_stem_t21, 21);
 commanding_stem_harness!(c15_k_commanding_stem_t22, 22);
 commanding_stem_harness!(c15_k_commanding_stem_t23, 23);
+
+// ---- C07: the weekday of a civil date through its day number: (jdn + 1) mod 7 for every valid date (the caller sees only the
+// proved contract of JulianDay::from_ymd_hms; the weekday formula on day numbers is c07_k_week)
+#[kani::proof]
+#[kani::unwind(9)]
+#[kani::stub(alloc::fmt::format, stub_format)]
+#[kani::stub_verified(JulianDay::from_ymd_hms)]
+fn c07_k_solar_day_week() {
+  let d = any_valid_day();
+  let w = d.get_week().get_index() as i64;
+  assert!(w == spec::weekday_of(spec::jdn(d.get_year() as i64, d.get_month() as i64, d.get_day() as i64)), "weekday of a civil date == (day number + 1) mod 7");
+  kani::cover!(d.get_year() == 1582 && d.get_month() == 10 && d.get_day() == 15, "solar_day_week reachable (first Gregorian day)");
+}
